@@ -60,6 +60,24 @@ type Beh struct {
 	// Layer: a restarting Negotiate returns a new connection layer (a wrapper that is not the
 	// session's connection) instead of session.Conn()
 	Layer bool
+	// CNec, CProh: the stream config function (NewNegotiator's argument, called for every
+	// negotiator call with the session) returns this feature only while the session state has
+	// every bit of CNec and no bit of CProh; 0, 0: always configured
+	CNec, CProh uint8
+}
+
+// Configured: is the feature part of the StreamConfig the config function returns for a session in
+// state st
+func (b Beh) Configured(st uint8) bool { return st&b.CNec == b.CNec && st&b.CProh == 0 }
+
+// Dynamic: does any feature of the configuration depend on the session
+func Dynamic(cfg []Beh) bool {
+	for _, b := range cfg {
+		if b.CNec != 0 || b.CProh != 0 {
+			return true
+		}
+	}
+	return false
 }
 
 func (b Beh) Name() string { return fmt.Sprintf("%d.%d", b.NS, b.Loc) }
@@ -67,7 +85,10 @@ func (b Beh) Name() string { return fmt.Sprintf("%d.%d", b.NS, b.Loc) }
 func (b Beh) Enc() string {
 	s := fmt.Sprintf("%s:%d:%d:%s:%s:%s:%s:%d:%s:%s", b.Name(), b.Nec, b.Proh, common.B(b.Negotiable),
 		common.B(b.ListReq), common.B(b.ListErr), common.B(b.ParseErr), b.Mask, common.B(b.Restart), common.B(b.NegErr))
-	if b.Layer {
+	switch {
+	case b.CNec != 0 || b.CProh != 0:
+		s += fmt.Sprintf(":%s:%d:%d", common.B(b.Layer), b.CNec, b.CProh)
+	case b.Layer:
 		s += ":1"
 	}
 	return s
@@ -921,10 +942,25 @@ func Exec(cs Case) Result {
 			r.sess = s
 			r.mu.Unlock()
 		}
-		if cs.Tee {
-			return xmpp.StreamConfig{Features: feats, TeeIn: io.Discard, TeeOut: io.Discard}
+		cur := feats
+		if Dynamic(cs.Cfg) {
+			// a config function that looks at the session: the features configured for its
+			// current state (feats[i] belongs to cs.Cfg[i])
+			st := cs.St0
+			if s != nil {
+				st = uint8(s.State())
+			}
+			cur = nil
+			for i, b := range cs.Cfg {
+				if b.Configured(st) {
+					cur = append(cur, feats[i])
+				}
+			}
 		}
-		return xmpp.StreamConfig{Features: feats}
+		if cs.Tee {
+			return xmpp.StreamConfig{Features: cur, TeeIn: io.Discard, TeeOut: io.Discard}
+		}
+		return xmpp.StreamConfig{Features: cur}
 	}
 	var neg xmpp.Negotiator
 	if cs.WS {
@@ -1044,7 +1080,7 @@ func ParseLine(line string) (Case, error) {
 	if f[3] != "-" {
 		for _, s := range strings.Split(f[3], ";") {
 			p := strings.Split(s, ":")
-			if len(p) != 10 && len(p) != 11 {
+			if len(p) != 10 && len(p) != 11 && len(p) != 13 {
 				return cs, fmt.Errorf("bad feature %q", s)
 			}
 			var b Beh
@@ -1063,7 +1099,13 @@ func ParseLine(line string) (Case, error) {
 			b.Mask = uint8(n)
 			b.Restart = p[8] == "1"
 			b.NegErr = p[9] == "1"
-			b.Layer = len(p) == 11 && p[10] == "1"
+			b.Layer = len(p) >= 11 && p[10] == "1"
+			if len(p) == 13 {
+				n, _ = strconv.Atoi(p[11])
+				b.CNec = uint8(n)
+				n, _ = strconv.Atoi(p[12])
+				b.CProh = uint8(n)
+			}
 			cs.Cfg = append(cs.Cfg, b)
 		}
 	}
